@@ -74,6 +74,7 @@ func runC18(c *core.Ctx) {
 	runR1811(c)
 	runR1813(c)
 	runR1814(c)
+	runR1815(c)
 
 	// ---- R18.2
 	lockKey := "T:" + core.Mod + "/metrics.hist.lock*"
